@@ -11,7 +11,9 @@ from vlib import core, tlaparse
 from vlib.core import Undecided, log
 from vlib.tlaparse import to_json
 
-TXSIZE = {"a": 1, "b": 1, "c": 2, "d": 3}        # = MCTxSize in spec/mc/C12_mc.tla
+# = MCTxSize in spec/mc/C12_mc.tla; p..w sit around the varint steps (2^7, 2^14) of the length prefix
+TXSIZE = {"a": 1, "b": 1, "c": 2, "d": 3, "p": 127, "q": 128, "r": 129, "s": 16383, "t": 16384, "u": 16385,
+          "v": 16511, "w": 16512}
 
 WEAK = [  # (cfg, expected violated invariant / property, version)
     ("C12_weak_NoDupCheckOnInsert.cfg", "InvUnique", "v0"),
@@ -23,6 +25,8 @@ WEAK = [  # (cfg, expected violated invariant / property, version)
     ("C12_weak_CacheNotUpdatedOnCommit.cfg", "InvCommittedGone", "v0"),
     ("C12_weak_RecheckKeepsRejected.cfg", "PropRecheckFilters", "v0"),
     ("C12_weak_RecheckKeepsRejected_v1.cfg", "PropRecheckFilters", "v1"),
+    ("C12_weak_VarintBoundaryOffByOne.cfg", "InvReapPrefix", "v0"),
+    ("C12_weak_VarintBoundaryOffByOne_v1.cfg", "InvReapPrefix", "v1"),
     ("C12_weak_NonAtomicAdmission.cfg", "InvBounded", "v0"),
     ("C12_weak_NonAtomicAdmission_unique.cfg", "InvUnique", "v0"),
     ("C12_v1_strict.cfg", "InvCommittedGoneStrict", "v1"),
@@ -31,6 +35,15 @@ WEAK = [  # (cfg, expected violated invariant / property, version)
 ABC = ["a", "b", "c"]
 ABCD = ["a", "b", "c", "d"]
 AB = ["a", "b"]
+
+
+def enc_size(n):
+    """tag + varint(len) + len: what one tx of n bytes costs in the encoded block data."""
+    v, l = 1, n
+    while l >= 0x80:
+        l >>= 7
+        v += 1
+    return 1 + v + n
 
 
 def tla(v):
@@ -51,6 +64,8 @@ def exhaustive_table(quick):
         ("v0_cache0", "C12_v0.cfg", {"CacheSize": 0}),
         ("v0_cache1_rich", "C12_v0.cfg", {"Txs": ABCD, "CacheSize": 1, "Gases": [1, 2], "PreLimits": [3], "PostLimits": [1]}),
         ("v0_cache2", "C12_v0.cfg", {"CacheSize": 2}),
+        ("sizes_v0", "C12_sizes_v0.cfg", {}),       # tx lengths around the varint steps, tight byte limits
+        ("sizes_v1", "C12_sizes_v1.cfg", {}),
         ("v1_evict_cache3", "C12_v1.cfg", {"CacheSize": 3, "MaxHeight": 0}),
         ("v1_cache1", "C12_v1.cfg", {"Txs": AB, "CacheSize": 1, "MaxHeight": 1, "Senders": [""]}),
     ]
@@ -83,6 +98,10 @@ def replay_table(quick):
         ("graph_v0", "C12_replay_v0.cfg", {}),
         ("graph_v1_evict", "C12_replay_v1.cfg", {"MaxInflight": 2, "MaxHeight": 0}),
         ("graph_v1_update", "C12_replay_v1.cfg", {"Senders": [""], "MaxInflight": 1, "Prios": [1]}),
+        # boundary-length txs (128, 16384, 16511, ...) reaped with byte limits exact / +-1 / +-2 / -3 around
+        # the encoded size of every prefix
+        ("graph_sizes_v0", "C12_replay_sizes_v0.cfg", {"Txs": ["q", "t", "v"]} if quick else {}),
+        ("graph_sizes_v1", "C12_replay_sizes_v1.cfg", {"Txs": ["q", "t"]} if quick else {}),
     ]
     if not quick:
         t += [
@@ -296,9 +315,12 @@ def build_runs(ctx, quick):
         steps = [act_to_step(s["act"]) for _h, s in hit[0]["trace"] if s.get("act", {}).get("name") != "Init"]
         steps = [s for s in steps if s]
         c = read_consts(ctx, cfg)
+        last_tx = ([x["tx"] for x in steps if x.get("tx")] or ["a"])[-1]
         # the dangerous schedule, followed by the observations that make its effect visible
         tail = [{"op": "ReapMaxTxs", "n": 1}, {"op": "ReapMaxTxs", "n": 0}, {"op": "ReapMaxBytesMaxGas", "b": -1, "g": -1},
-                {"op": "Update", "txs": [steps[-1].get("tx", "a")], "oks": [True], "npre": -2, "npost": -2}]
+                {"op": "ReapMaxBytesMaxGas", "b": enc_size(TXSIZE[last_tx]) - 1, "g": -1},
+                {"op": "ReapMaxBytesMaxGas", "b": enc_size(TXSIZE[last_tx]), "g": -1},
+                {"op": "Update", "txs": [last_tx], "oks": [True], "npre": -2, "npost": -2}]
         attack[c["version"]].append({"cfg": c, "mode": "async", "steps": steps + tail, "src": "attack:" + cfg[4:-4]})
         attack[c["version"]].append({"cfg": c, "mode": "sync", "steps": to_sync(steps + tail), "src": "attack-sync:" + cfg[4:-4]})
         info["attack_schedules"] += 2
